@@ -194,6 +194,11 @@ PermanentStays == [][perm \subseteq perm']_vars
 \* the implementation enters Error only for defects the monitor regards as permanent
 ErrorIsPermanent == st = "Error" => err \in perm
 
+\* the history-free automaton: with this VIEW the reachable graph is finite, and TLC decides the
+\* refinement (OkIffValid, ErrInDefects, ErrorIsPermanent, Sticky) for call sequences of EVERY length
+\* (the number of finished functions only matters as "none / some")
+HistoryFreeView == <<st, err, mp, used, IF nfun > 0 THEN 1 ELSE 0, fb, xset, init, mvars, dead>>
+
 (* ---------------- export: one line per call sequence ---------------- *)
 RECURSIVE SetToSeq(_)
 SetToSeq(S) == IF S = {} THEN <<>> ELSE LET x == CHOOSE y \in S : TRUE IN <<x>> \o SetToSeq(S \ {x})
